@@ -338,6 +338,13 @@ impl Queryable for Mini {
     fn null() -> Self {
         Mini::Null
     }
+    /// Observation point for the generic argument plumbing (test_function::custom):
+    /// reports how many argument values reached the data type's extension hook.
+    fn extension_custom(_name: &str, args: Vec<Cow<Self>>) -> Self {
+        let n = args.len();
+        core::mem::forget(args);
+        Mini::Int(n as i64)
+    }
 }
 
 // ---------------------------------------------------------------------------
